@@ -28,7 +28,6 @@ use std::{
 };
 
 use anyhow::Context;
-use chrono::Datelike;
 use once_cell::sync::Lazy;
 use serde::{Deserialize, Serialize};
 
@@ -174,14 +173,17 @@ impl PreprocessorCacheEntry {
 
     /// Returns the digest of the first result whose expected included files
     /// are already on disk and have not changed.
+    ///
+    /// (`_updated` used to report that the entry had been rewritten for a file with time
+    /// macros; a lookup no longer changes the entry.)
     pub fn lookup_result_digest(
         &mut self,
         config: PreprocessorCacheModeConfig,
-        updated: &mut bool,
+        _updated: &mut bool,
     ) -> Option<String> {
         // Check newest result first since it's more likely to match.
         for (digest, includes) in self.results.iter_mut().rev() {
-            let result_matches = Self::result_matches(digest, includes, config, updated);
+            let result_matches = Self::result_matches(includes, config);
             if result_matches {
                 return Some(digest.to_string());
             }
@@ -190,12 +192,7 @@ impl PreprocessorCacheEntry {
     }
 
     /// A result matches if all of its include files exist on disk and have not changed.
-    fn result_matches(
-        digest: &str,
-        includes: &mut [IncludeEntry],
-        config: PreprocessorCacheModeConfig,
-        updated: &mut bool,
-    ) -> bool {
+    fn result_matches(includes: &mut [IncludeEntry], config: PreprocessorCacheModeConfig) -> bool {
         for include in includes {
             let path = Path::new(include.path.as_os_str());
             let meta = match std::fs::symlink_metadata(path) {
@@ -284,73 +281,34 @@ impl PreprocessorCacheEntry {
                         return false;
                     }
                 };
-                if !finder.found_time_macros() && include.digest != new_digest {
+                // The contents are compared whether or not the file mentions a time macro.
+                if include.digest != new_digest {
                     return false;
                 }
                 if finder.found_time() {
                     // We don't know for sure that the program actually uses the __TIME__ macro,
-                    // but we have to assume it anyway and hash the time stamp. However, that's
-                    // not very useful since the chance that we get a cache hit later the same
-                    // second should be quite slim... So, just signal back to the caller that
-                    // __TIME__ has been found so that the preprocessor cache mode can be disabled.
+                    // but we have to assume it anyway. The chance that we get a cache hit later
+                    // the same second should be quite slim... So, just signal back to the caller
+                    // that __TIME__ has been found so that the preprocessor cache mode can be
+                    // disabled.
                     debug!("Found __TIME__ in {}", path.display());
                     return false;
                 }
-
-                // __DATE__ or __TIMESTAMP__ found. We now make sure that the digest changes
-                // if the (potential) expansion of those macros changes by computing a new
-                // digest comprising the file digest and time information that represents the
-                // macro expansions.
-                let mut new_digest = Digest::new();
-                new_digest.update(digest.as_bytes());
-
                 if finder.found_date() {
+                    // The expansion of __DATE__ changes with the day (and with
+                    // SOURCE_DATE_EPOCH); the day the entry was made is not recorded, so
+                    // there is nothing to compare today with.
                     debug!("found __DATE__ in {}", path.display());
-                    new_digest.delimiter(b"date");
-                    let date = chrono::Local::now().date_naive();
-                    new_digest.update(&date.year().to_le_bytes());
-                    new_digest.update(&date.month().to_le_bytes());
-                    new_digest.update(&date.day().to_le_bytes());
-
-                    // If the compiler has support for it, the expansion of __DATE__ will change
-                    // according to the value of SOURCE_DATE_EPOCH. Note: We have to hash both
-                    // SOURCE_DATE_EPOCH and the current date since we can't be sure that the
-                    // compiler honors SOURCE_DATE_EPOCH.
-                    if let Ok(source_date_epoch) = std::env::var("SOURCE_DATE_EPOCH") {
-                        new_digest.update(source_date_epoch.as_bytes())
-                    }
+                    return false;
                 }
-
                 if finder.found_timestamp() {
+                    // __TIMESTAMP__ expands to the modification time of the file: the entry
+                    // is only good for the modification time it was recorded with.
                     debug!("found __TIMESTAMP__ in {}", path.display());
-                    let meta = match std::fs::symlink_metadata(path) {
-                        Ok(meta) => meta,
-                        Err(e) => {
-                            debug!(
-                                "{} is in a preprocessor cache entry but can't be read ({})",
-                                path.display(),
-                                e
-                            );
-                            return false;
-                        }
-                    };
-                    let mtime = match meta.modified() {
-                        Ok(mtime) => mtime,
-                        Err(_) => {
-                            debug!(
-                                "Couldn't get mtime of {} which contains __TIMESTAMP__",
-                                path.display()
-                            );
-                            return false;
-                        }
-                    };
-                    let mtime: chrono::DateTime<chrono::Local> = chrono::DateTime::from(mtime);
-                    new_digest.delimiter(b"timestamp");
-                    new_digest.update(&mtime.naive_local().and_utc().timestamp().to_le_bytes());
-                    include.digest = new_digest.finish();
-                    // Signal that the preprocessor cache entry has been updated and needs to be
-                    // written to disk.
-                    *updated = true;
+                    let mtime: Option<Timestamp> = meta.modified().ok().map(Into::into);
+                    if include.mtime.is_none() || include.mtime != mtime {
+                        return false;
+                    }
                 }
             }
         }
